@@ -43,10 +43,10 @@ pub fn repo_root() -> std::path::PathBuf {
 
 /// Scratch directory for this process (under /verif/target/work, never /tmp).
 pub fn work_dir() -> std::path::PathBuf {
-    let d = verif_root()
-        .join("target")
-        .join("work")
-        .join(format!("p{}", std::process::id()));
+    // ./check gives every run its own parent directory, so that concurrent runs do not
+    // clean up each other's files
+    let parent = std::env::var("VERIF_WORK_PARENT").map(std::path::PathBuf::from).unwrap_or_else(|_| verif_root().join("target").join("work"));
+    let d = parent.join(format!("p{}", std::process::id()));
     let _ = std::fs::create_dir_all(&d);
     d
 }
